@@ -46,14 +46,18 @@ def hexVal (c : UInt8) : Option Nat :=
 
 def isHex (c : UInt8) : Bool := (hexVal c).isSome
 
+/-- the overflow test of the number parsers:
+    `(res > (UINT64_MAX / base)) || ((res == (UINT64_MAX / base)) && (digit > (UINT64_MAX % base)))` -/
+def mulOvf (base res d : Nat) : Bool :=
+  decide (res > uint64Max / base) || (decide (res = uint64Max / base) && decide (d > uint64Max % base))
+
 /-- loop of `MHD_str_to_uint64_n_`: `(digits consumed, value)`; `(0,0)` on overflow -/
 def strToU64Aux : Bytes → Nat → Nat → Nat × Nat
   | [], res, i => (i, res)
   | c :: t, res, i =>
     if isDigit c then
-      let d := c.toNat - 48
-      if res > uint64Max / 10 ∨ (res = uint64Max / 10 ∧ d > uint64Max % 10) then (0, 0)
-      else strToU64Aux t (res * 10 + d) (i + 1)
+      if mulOvf 10 res (c.toNat - 48) then (0, 0)
+      else strToU64Aux t (res * 10 + (c.toNat - 48)) (i + 1)
     else (i, res)
 
 /-- `MHD_str_to_uint64_n_ (str, len, &out)`: number of digits processed (0 = no digit at the
@@ -70,7 +74,7 @@ def strxAux : Bytes → Nat → Nat → Nat × Nat
     match hexVal c with
     | none => (i, res)
     | some d =>
-      if res > uint64Max / 16 ∨ (res = uint64Max / 16 ∧ d > uint64Max % 16) then (0, 0)
+      if mulOvf 16 res d then (0, 0)
       else strxAux t (res * 16 + d) (i + 1)
 
 def strx (s : Bytes) : Nat × Nat := strxAux s 0 0
